@@ -29,6 +29,9 @@
 //!   * an `async fn` only when the spec's signature starts with `async ` (every `.await` through the name map)
 //!   * `let x = e?;` and `e?;` at function level (`match e with | .error err => .error err | .ok x => …`),
 //!     `opt.ok_or(err)`
+//!   * `match` at function level followed by further statements (they follow every arm that does not return); match
+//!     guards (`p if g => b` ↦ `| p => if g then b else match … <later arms>`); variants of an enum generated with
+//!     payload inside `Some(…)`/`Ok(…)` patterns; `let (a, b) = e;` as an opaque let; an opaque, verbatim-compared tail
 //!   * logging macros `debug! trace! info! warn! error!` are skipped
 //!   * method calls / field accesses / casts only through the per-function NAME MAP below
 //!     (whole expression, compared after removing white space) or METHOD MAP
@@ -94,6 +97,9 @@ struct Spec {
     /// `<prefix>|<param>|{ BODY }<suffix>` (compact); BODY is translated, `<param>` is a mutable local
     /// bound by the Lean binder of the same name
     wrapper: Option<(&'static str, &'static str, &'static str)>,
+    /// opaque tail: when the REMAINING statements of the function body (at function level, compact, joined)
+    /// are exactly this text, they are not translated but stand for the given Lean term
+    tail: Option<(&'static str, &'static str)>,
     /// what the abstraction hides (printed into the header)
     note: &'static str,
 }
@@ -125,6 +131,7 @@ const SPECS: &[Spec] = &[
         opaque_lets: &[],
         effects: &[],
         wrapper: None,
+        tail: None,
         note: "`self` is only consulted through `is_currently_aggregating()` (a Bool parameter).",
     },
     Spec {
@@ -157,6 +164,7 @@ const SPECS: &[Spec] = &[
         opaque_lets: &[],
         effects: &[],
         wrapper: None,
+        tail: None,
         note: "deltas are abstract (`Δ`); the two wall-clock tests of a delta are parameter functions \
                `younger`/`older : Δ → seconds → Bool`; the four fields of `RrdpUpdatesConfig` are parameters.",
     },
@@ -186,6 +194,7 @@ const SPECS: &[Spec] = &[
         opaque_lets: &[],
         effects: &[],
         wrapper: None,
+        tail: None,
         note: "`Time` and `Duration` are whole seconds (`Int`); `Time - Duration` and `Time > Time` are the integer operations; \
                the wall clock `Time::now()` is a parameter; `self.next_update()` is the getter of `self.revision.next_update`.",
     },
@@ -216,6 +225,7 @@ const SPECS: &[Spec] = &[
         opaque_lets: &[],
         effects: &[],
         wrapper: None,
+        tail: None,
         note: "key object sets are abstract (`S`), `KeyObjectSet::requires_reissuance` is the parameter `due`; the payload of \
                `ResourceClassKeyState` is flattened into the three set parameters (each arm only reads the sets its variant has).",
     },
@@ -258,6 +268,7 @@ const SPECS: &[Spec] = &[
         opaque_lets: &[],
         effects: &[],
         wrapper: None,
+        tail: None,
         note: "ROAs (`ρ`), route origins (`ω`) and payloads (`π`) are abstract; AS numbers and prefix lengths are `Nat` \
                (`AsNumber::AS0` = 0); what the loop reads of a ROA are parameter functions (`roa_covers r` = \
                `r.prefix.covers(origin.prefix)`); of the origin it reads its AS number and prefix length (parameters).",
@@ -301,6 +312,7 @@ const SPECS: &[Spec] = &[
         ],
         effects: &[],
         wrapper: None,
+        tail: None,
         note: "FLOATS: the two `f64` ratio tests `e/c < 0.9`, `e/c > 1.1` are NOT translated but mapped to the integer \
                predicates `10·e < 9·c`, `10·e > 11·c` of the model (they are only evaluated for `c > 0`, where the exact \
                rational comparison is the same; the rounding of the f64 quotient is outside the translation and sampled at \
@@ -344,6 +356,7 @@ const SPECS: &[Spec] = &[
             ),
         ],
         wrapper: Some(("self.store.execute(Self::lock_scope(),", "store", ")?;Ok(())")),
+        tail: None,
         note: "the key-value transaction is abstract (`σ`, keys `κ`): the three store calls are parameter functions on it \
                and the function returns the final store (the closure's `Ok(())`); errors of the store (`?`) are outside the \
                translation; the two look-ups `get_storage_key_and_time` (first key with that name in `list_keys` order, with \
@@ -380,6 +393,7 @@ const SPECS: &[Spec] = &[
         opaque_lets: &[],
         effects: &[],
         wrapper: None,
+        tail: None,
         note: "permission sets `S`, permissions `P` and handles `H` are abstract; `PermissionSet::has` is the parameter \
                `has`; the hash map `self.resources` enters through its look-up function `entry` (`HashMap::get`); the \
                fields `self.any` / `self.none` are the parameters `self_any` / `self_none`.  The binder `resource` of \
@@ -414,6 +428,7 @@ const SPECS: &[Spec] = &[
         opaque_lets: &[],
         effects: &[],
         wrapper: None,
+        tail: None,
         note: "the three providers are abstract: `legacy_provider` is the optional legacy (admin token) provider and \
                `legacy_authenticate` its `authenticate`; `primary` / `unix_socket` are the RESULTS of the primary \
                provider's and the Unix-socket provider's `authenticate(request)` (each consulted at most once, and only \
@@ -443,6 +458,7 @@ const SPECS: &[Spec] = &[
         opaque_lets: &[],
         effects: &[],
         wrapper: None,
+        tail: None,
         note: "`u8` ↦ `Nat`; `self.max_length` and the prefix length `self.prefix.addr_len()` are parameters.",
     },
     Spec {
@@ -466,6 +482,7 @@ const SPECS: &[Spec] = &[
         opaque_lets: &[],
         effects: &[],
         wrapper: None,
+        tail: None,
         note: "`u8` ↦ `Nat`; of `self.prefix` only the address family (the variant of `TypedPrefix`) and the length \
                `addr_len()` are consulted.",
     },
@@ -497,6 +514,7 @@ const SPECS: &[Spec] = &[
         opaque_lets: &[],
         effects: &[],
         wrapper: None,
+        tail: None,
         note: "`1u128.checked_shl(n).unwrap_or(u128::MAX)` is the parameter `shl_sat n` (the theorem instantiates it with \
                the checked shift of `Input/Checked.lean`: `2^n` for `n < 128`, else `2^128 - 1`); `saturating_sub` on `u8` \
                is `Nat` subtraction; the whole shift expression is compared verbatim.",
@@ -535,6 +553,7 @@ const SPECS: &[Spec] = &[
         opaque_lets: &[],
         effects: &[],
         wrapper: None,
+        tail: None,
         note: "nonces `ν`, the associated signer `σ`, errors `ε` and the accepted event list `α` are abstract; \
                `response.validate(&signer.id)` (CMS signature check against the associated signer's identity key) is the \
                parameter `validate`; the three errors and the single accepted event \
@@ -565,6 +584,7 @@ const SPECS: &[Spec] = &[
         opaque_lets: &[],
         effects: &[],
         wrapper: None,
+        tail: None,
         note: "the event `SignerRequestMade(Nonce::new())` (fresh random nonce) is the parameter `made`.",
     },
     Spec {
@@ -606,11 +626,55 @@ const SPECS: &[Spec] = &[
         opaque_lets: &[],
         effects: &[],
         wrapper: None,
+        tail: None,
         note: "delta elements `E` are abstract (one type for the three lists; the theorem instantiates it with the model's \
                `Elem`): `jail.is_parent_of(&x.uri)` is `in_jail x`, `self.0.contains_key(&CurrentObjectUri::from(&x.uri))` \
                is `present x`, `self.contains(x.hash, &x.uri)` (`CurrentObjects::contains`: the object under the canonical \
                key of the URI has that hash) is `matches_hash x`; the three error constructors are parameters; the \
                three lists are `DeltaElements::publishes/updates/withdraws` in protocol order.",
+    },
+    Spec {
+        id: "C03",
+        file: "src/server/ca/certauth.rs",
+        ty: "CertAuth",
+        method: "process_child_revoke_key",
+        lean: "CertAuth.process_child_revoke_key",
+        sig: "&self,child_handle:ChildHandle,request:RevocationRequest->KrillResult<Vec<CertAuthEvent>>",
+        binders: "{C R ε α : Type} [DecidableEq R] (get_child : Except ε C) (parent_name_for_rcn : C → R) (has_class : R → Bool) \
+                  (used_key : C → Option (UsedKeyState R)) (nothing : α) (err_no_issued_cert : ε) (revoke_events : R → α)",
+        args: "get_child parent_name_for_rcn has_class used_key nothing err_no_issued_cert revoke_events",
+        ret: "Except ε α",
+        num: Num::Nat,
+        names: &[
+            ("self.get_child(&child_handle)", "get_child"),
+            ("child.parent_name_for_rcn(&child_rcn)", "(parent_name_for_rcn child)"),
+            ("self.resources.contains_key(&my_rcn)", "(has_class my_rcn)"),
+            ("child.used_keys.get(&key)", "(used_key child)"),
+            ("vec![]", "nothing"),
+            ("Error::KeyUseNoIssuedCert", "err_no_issued_cert"),
+        ],
+        methods: &[],
+        state_ty: &[],
+        elem_ty: "",
+        enums: &[("UsedKeyState", "src/server/ca/child.rs", "(R : Type)")],
+        structs: &[],
+        types: &[("ResourceClassName", "R")],
+        opaque_lets: &[("(child_rcn,key)", "request.unpack()")],
+        effects: &[],
+        wrapper: None,
+        tail: Some((
+            "letmutchild_certificate_updates=ChildCertificateUpdates::default();child_certificate_updates.removed.push(key);\
+             letcert_name=ObjectName::from_key(&key,\"cer\");info!(\"CA'{}'revokedcertificate'{}'forchild'{}'\",self.handle,cert_name,child_handle);\
+             letrev=CertAuthEvent::ChildKeyRevoked{child:child_handle,resource_class_name:my_rcn.clone(),ki:key,};\
+             letupd=CertAuthEvent::ChildCertificatesUpdated{resource_class_name:my_rcn,updates:child_certificate_updates,};\
+             Ok(vec![rev,upd])",
+            "(Except.ok (revoke_events my_rcn))",
+        )),
+        note: "children `C`, resource class names `R`, errors `ε` and event lists `α` are abstract; `(child_rcn, key)` are the \
+               two fields of the request (opaque: `child_rcn` only enters through `child.parent_name_for_rcn(&child_rcn)`, \
+               `key` through `child.used_keys.get(&key)`); `self.get_child` is a `Result` parameter; the closing statements \
+               that build `ChildKeyRevoked` + `ChildCertificatesUpdated { removed: [key] }` for `my_rcn` are compared \
+               verbatim and stand for `revoke_events my_rcn`.",
     },
 ];
 
@@ -979,6 +1043,19 @@ impl<'a> Tr<'a> {
                 self.locals.push((n.clone(), false));
                 Ok(lean_ident(&n))
             }
+            P::Path(q) if q.qself.is_none() && q.path.segments.len() == 2 && self.enum_known(&q.path.segments[0].ident.to_string()) => {
+                Ok(format!("{}.{}", q.path.segments[0].ident, lean_ident(&q.path.segments[1].ident.to_string())))
+            }
+            P::TupleStruct(t)
+                if t.qself.is_none() && t.path.segments.len() == 2 && self.enum_has_payload(&t.path.segments[0].ident.to_string()) =>
+            {
+                // a variant of an enum generated WITH its payload: the binders are ordinary locals
+                let mut parts = vec![format!("{}.{}", t.path.segments[0].ident, lean_ident(&t.path.segments[1].ident.to_string()))];
+                for el in &t.elems {
+                    parts.push(self.builtin_pat(el)?);
+                }
+                Ok(format!("({})", parts.join(" ")))
+            }
             P::TupleStruct(t) if t.qself.is_none() && t.elems.len() == 1 => {
                 let ctor = match compact(&t.path).as_str() {
                     "Some" => "some",
@@ -1041,6 +1118,25 @@ impl<'a> Tr<'a> {
 
     /// The Lean term for a statement sequence; `ctl` says what reaching the end means.
     fn seq(&mut self, items: &[Item], ctl: Ctl, ind: usize) -> R {
+        if let Some((text, lean)) = self.spec.tail {
+            if ctl == Ctl::Fn && !self.in_loop && !items.is_empty() {
+                let mut joined = String::new();
+                let mut plain = true;
+                for it in items {
+                    match it {
+                        Item::S(st) => joined.push_str(&compact(*st)),
+                        Item::E(e) => joined.push_str(&compact(*e)),
+                        Item::Bind(_) => plain = false,
+                    }
+                }
+                if std::env::var("VERIF_TR_DEBUG").is_ok() {
+                    eprintln!("tail candidate: {joined}");
+                }
+                if plain && joined == text {
+                    return Ok(format!("{}{lean}", pad(ind)));
+                }
+            }
+        }
         let Some((first, rest)) = items.split_first() else {
             return match ctl {
                 Ctl::Loop => Ok(format!("{}{}", pad(ind), self.loop_continue())),
@@ -1056,6 +1152,31 @@ impl<'a> Tr<'a> {
                 }
             }
             Item::S(syn::Stmt::Item(i)) => Err(format!("nested item `{}`", compact(i))),
+            Item::S(syn::Stmt::Local(l)) if matches!(&l.pat, syn::Pat::Tuple(_))
+                && self.spec.opaque_lets.iter().any(|(n, _)| *n == compact(&l.pat)) =>
+            {
+                // `let (a, b) = init;` listed as opaque: the names are only usable through the name map
+                let pc = compact(&l.pat);
+                let (_, init_c) = self.spec.opaque_lets.iter().find(|(n, _)| *n == pc).unwrap();
+                let init = l.init.as_ref().ok_or_else(|| format!("`let {pc};` without initialiser"))?;
+                if init.diverge.is_some() || compact(&init.expr) != *init_c {
+                    return Err(format!("opaque `let {pc}` changed: `{}` (expected `{init_c}`)", compact(&init.expr)));
+                }
+                let syn::Pat::Tuple(t) = &l.pat else { unreachable!() };
+                for el in &t.elems {
+                    match el {
+                        syn::Pat::Ident(i) if i.by_ref.is_none() && i.mutability.is_none() && i.subpat.is_none() => {
+                            let n = i.ident.to_string();
+                            if self.local(&n).is_some() || self.opaque.contains(&n) {
+                                return Err(format!("opaque `let {pc}` shadows `{n}`"));
+                            }
+                            self.opaque.push(n);
+                        }
+                        _ => return Err(format!("opaque `let {pc}`: only identifiers in the tuple")),
+                    }
+                }
+                self.seq(rest, ctl, ind)
+            }
             Item::S(syn::Stmt::Local(l)) => {
                 let (name, mutable) = match &l.pat {
                     syn::Pat::Ident(i) if i.by_ref.is_none() && i.subpat.is_none() => (i.ident.to_string(), i.mutability.is_some()),
@@ -1261,30 +1382,14 @@ impl<'a> Tr<'a> {
                 Ok(format!("{p}if {cond} then\n{t}\n{p}else\n{el}", p = pad(ind)))
             }
             E::Match(m) => {
-                if !rest.is_empty() && !matches!(rest[0], Item::Bind(_)) {
-                    return Err("`match` followed by further statements".into());
+                // a `match` followed by further statements: the statements follow every arm that does not leave the
+                // function (like `if`); only at function level
+                if !rest.is_empty() && !matches!(rest[0], Item::Bind(_)) && (ctl != Ctl::Fn || self.in_loop) {
+                    return Err("`match` followed by further statements inside a loop or value block".into());
                 }
                 let scrut = self.expr(&m.expr, ind)?;
-                let mut s = format!("{}match {scrut} with", pad(ind));
-                for arm in &m.arms {
-                    if arm.guard.is_some() {
-                        return Err(format!("match guard in `{}`", compact(&arm.pat)));
-                    }
-                    let (nl, no) = (self.locals.len(), self.opaque.len());
-                    let p = self.pat(&arm.pat)?;
-                    let body = match &*arm.body {
-                        E::Block(b) if b.label.is_none() => self.seq(&Self::block_items(&b.block, rest), ctl, ind + 4)?,
-                        b => {
-                            let mut items = vec![Item::E(b)];
-                            items.extend_from_slice(rest);
-                            self.seq(&items, ctl, ind + 4)?
-                        }
-                    };
-                    self.locals.truncate(nl);
-                    self.opaque.truncate(no);
-                    s.push_str(&format!("\n{}| {p} =>\n{body}", pad(ind)));
-                }
-                Ok(s)
+                let arms: Vec<&syn::Arm> = m.arms.iter().collect();
+                self.match_arms(&scrut, &arms, rest, ctl, ind)
             }
             E::Block(b) if b.label.is_none() && rest.is_empty() && ctl != Ctl::Loop => {
                 let (nl, no) = (self.locals.len(), self.opaque.len());
@@ -1366,6 +1471,77 @@ impl<'a> Tr<'a> {
                 Ok(format!("{}{}", pad(ind), self.expr(e, ind)?))
             }
         }
+    }
+
+    /// `match scrut { arms }`.  An arm with a guard `p if g => b` becomes `| p => if g then b else (match scrut with
+    /// <the arms after it>)`: when the pattern matches but the guard fails, Rust goes on with the later arms; the
+    /// later arms are listed again after it for the values `p` does not match.
+    fn match_arms(&mut self, scrut: &str, arms: &[&syn::Arm], rest: &[Item], ctl: Ctl, ind: usize) -> R {
+        use syn::Expr as E;
+        let mut s = format!("{}match {scrut} with", pad(ind));
+        // shapes (pattern with its binders replaced by `_`) of the guarded arms seen so far: a later arm of exactly
+        // that shape can only be reached through the guard's `else` (Lean rejects it as redundant in the outer match)
+        let mut guarded_shapes: Vec<String> = Vec::new();
+        let shape = |p: &str, binders: &[(String, bool)]| -> String {
+            let mut out = String::new();
+            let mut word = String::new();
+            for ch in p.chars().chain(std::iter::once(' ')) {
+                if ch.is_alphanumeric() || ch == '_' || ch == '.' || ch == '«' || ch == '»' {
+                    word.push(ch);
+                } else {
+                    if !word.is_empty() {
+                        if binders.iter().any(|(b, _)| lean_ident(b) == word) {
+                            out.push('_');
+                        } else {
+                            out.push_str(&word);
+                        }
+                        word.clear();
+                    }
+                    out.push(ch);
+                }
+            }
+            out.trim_end().to_string()
+        };
+        for (i, arm) in arms.iter().enumerate() {
+            let (nl, no) = (self.locals.len(), self.opaque.len());
+            let p = self.pat(&arm.pat)?;
+            let sh = shape(&p, &self.locals[nl..]);
+            if arm.guard.is_none() && guarded_shapes.contains(&sh) {
+                self.locals.truncate(nl);
+                self.opaque.truncate(no);
+                continue;
+            }
+            if arm.guard.is_some() {
+                guarded_shapes.push(sh);
+            }
+            let extra = if arm.guard.is_some() { 4 } else { 0 };
+            let body = match &*arm.body {
+                E::Block(b) if b.label.is_none() => self.seq(&Self::block_items(&b.block, rest), ctl, ind + 4 + extra)?,
+                b => {
+                    let mut items = vec![Item::E(b)];
+                    items.extend_from_slice(rest);
+                    self.seq(&items, ctl, ind + 4 + extra)?
+                }
+            };
+            let body = match &arm.guard {
+                None => body,
+                Some((_, g)) => {
+                    if i + 1 == arms.len() {
+                        return Err(format!("guard on the last arm `{}`", compact(&arm.pat)));
+                    }
+                    let cond = self.prop(g, ind)?;
+                    // the binders of this arm are not in scope of the later arms
+                    self.locals.truncate(nl);
+                    self.opaque.truncate(no);
+                    let later = self.match_arms(scrut, &arms[i + 1..], rest, ctl, ind + 8)?;
+                    format!("{p4}if {cond} then\n{body}\n{p4}else\n{later}", p4 = pad(ind + 4))
+                }
+            };
+            self.locals.truncate(nl);
+            self.opaque.truncate(no);
+            s.push_str(&format!("\n{}| {p} =>\n{body}", pad(ind)));
+        }
+        Ok(s)
     }
 
     fn for_loop(&mut self, f: &syn::ExprForLoop, rest: &[Item], ctl: Ctl, ind: usize) -> R {
@@ -1642,6 +1818,9 @@ pub fn run(repo: &Path, table: &str) -> String {
         }
         if let Some((pre, param, suf)) = s.wrapper {
             out.push_str(&format!("    only the closure body of `{pre}|{param}|{{…}}{suf}` is translated; `{param}` is a mutable local bound by the parameter of the same name\n"));
+        }
+        if let Some((text, lean)) = s.tail {
+            out.push_str(&format!("    the closing statements `{text}` (compared verbatim) ↦ `{lean}`\n"));
         }
         for ((r, m), v) in s.methods {
             out.push_str(&format!("    `{r}.{m}(args…)` ↦ `{v} args…`\n"));
